@@ -120,7 +120,7 @@ def run(ctx):
                 rep.check(tabled, 'R-C17-1', 'R-C17-1/%s/propagates/%s' % (suffix, cal.path.split('::')[-1] if not cal.path.startswith('<') else cal.path[-40:]),
                           'the fallible crate function %s reached from this constructor has a domain table of its own' % cal.path,
                           'the constructor hands on the failure of %s, whose rejections are not tabled: its domain is not decided' % cal.path, ctx.where(body))
-    rep.floor('R-C17-1', 'constructor guards', n_guards, 19)
+    rep.floor('R-C17-1', 'constructor guards', n_guards, 12)
 
     # R-C17-2 arm -> variant mapping of try_from(u8)
     tf = ctx.fn('TryFrom<u8>>::try_from', 'R-C17-2')
